@@ -353,6 +353,130 @@ def _quantifier_loops(stmts):
     return out
 
 
+def _unpack_fields(stmts):
+    """N39: `a, b, c = struct.unpack("32s36sB", X)` (X a plain name; only `Ns`, `B`, `x` items, or fixed-endian unsigned H / I / Q)
+        ->  struct.unpack("32s36sB", X)            (kept for what it may raise: the length must match)
+            a = X[0:32]; b = X[32:68]; c = X[68]   (integers wider than a byte: int.from_bytes(X[i:j], byteorder=.., signed=False))"""
+    out = []
+    for st in stmts:
+        v = st.value if isinstance(st, ast.Assign) else None
+        if not (isinstance(st, ast.Assign) and len(st.targets) == 1 and isinstance(st.targets[0], (ast.Tuple, ast.List)) and isinstance(v, ast.Call)
+                and isinstance(v.func, ast.Attribute) and isinstance(v.func.value, ast.Name) and v.func.value.id == "struct" and v.func.attr == "unpack"
+                and len(v.args) == 2 and not v.keywords and isinstance(v.args[0], ast.Constant) and isinstance(v.args[0].value, str) and isinstance(v.args[1], ast.Name)
+                and all(isinstance(t, ast.Name) for t in st.targets[0].elts)):
+            out.append(st)
+            continue
+        m = re.fullmatch(r"([<>!=]?)((?:\d*[sBxHIQ])+)", v.args[0].value)
+        fields, pos, ok = [], 0, m is not None
+        if ok:
+            order = {"<": "little", ">": "big", "!": "big"}.get(m.group(1))
+            for cnt, ch in re.findall(r"(\d*)([sBxHIQ])", m.group(2)):
+                n = int(cnt) if cnt else 1
+                if ch == "s":
+                    fields.append(("s", pos, pos + n))
+                    pos += n
+                elif ch == "x":
+                    pos += n
+                else:
+                    w = {"B": 1, "H": 2, "I": 4, "Q": 8}[ch]
+                    if w > 1 and order is None:
+                        ok = False
+                        break
+                    for _ in range(n):
+                        fields.append((ch, pos, pos + w))
+                        pos += w
+        X = v.args[1].id
+        tn = [t.id for t in st.targets[0].elts]
+        if not ok or len(fields) != len(tn) or X in tn or len(set(tn)) != len(tn):
+            out.append(st)
+            continue
+        keep = ast.copy_location(ast.Expr(value=v), st)
+        out.append(keep)
+        for t, (ch, a, b) in zip(tn, fields):
+            x = ast.Name(id=X, ctx=ast.Load())
+            if ch == "B":
+                val = ast.Subscript(value=x, slice=ast.Constant(value=a), ctx=ast.Load())
+            else:
+                val = ast.Subscript(value=x, slice=ast.Slice(lower=ast.Constant(value=a), upper=ast.Constant(value=b), step=None), ctx=ast.Load())
+                if ch != "s":
+                    val = ast.Call(func=ast.Attribute(value=ast.Name(id="int", ctx=ast.Load()), attr="from_bytes", ctx=ast.Load()), args=[val],
+                                   keywords=[ast.keyword(arg="byteorder", value=ast.Constant(value=order)), ast.keyword(arg="signed", value=ast.Constant(value=False))])
+            a_ = ast.copy_location(ast.Assign(targets=[ast.Name(id=t, ctx=ast.Store())], value=val, type_comment=None), st)
+            ast.fix_missing_locations(a_)
+            out.append(a_)
+    return out
+
+
+def _counted_list_loops(stmts):
+    """N35: a list filled by a loop that runs until it has K elements,
+
+        L = []                       L = []
+        while len(L) < K:            B[L.append(E) := L__e1 = E]; ...; B[L.append(E) := L__eK = E]
+            B   (one L.append(E))    L = [L__e1, ..., L__eK]
+
+    for a constant K <= MAX_UNROLL, when B mentions L only in that one top-level append, has no break / continue / return and nothing between
+    the `L = []` and the loop mentions L.  A following `a, b, .. = L` (K targets, L not mentioned in between) becomes a = L__e1; b = L__e2; ..."""
+    def mentions(node, nm):
+        return any(isinstance(x, ast.Name) and x.id == nm for x in ast.walk(node))
+    out = list(stmts)
+    i = 0
+    while i < len(out):
+        st = out[i]
+        i += 1
+        if not (isinstance(st, ast.While) and not st.orelse and isinstance(st.test, ast.Compare) and len(st.test.ops) == 1 and isinstance(st.test.ops[0], ast.Lt)
+                and isinstance(st.test.left, ast.Call) and isinstance(st.test.left.func, ast.Name) and st.test.left.func.id == "len" and len(st.test.left.args) == 1
+                and isinstance(st.test.left.args[0], ast.Name) and isinstance(st.test.comparators[0], ast.Constant)
+                and type(st.test.comparators[0].value) is int and 1 <= st.test.comparators[0].value <= MAX_UNROLL):
+            continue
+        L, K = st.test.left.args[0].id, st.test.comparators[0].value
+        at = i - 1
+        j = at - 1
+        while j >= 0 and not mentions(out[j], L) and not isinstance(out[j], (ast.For, ast.While, ast.If, ast.Try, ast.With, ast.FunctionDef, InlineBlock)):
+            j -= 1
+        if j < 0 or not (isinstance(out[j], ast.Assign) and len(out[j].targets) == 1 and isinstance(out[j].targets[0], ast.Name) and out[j].targets[0].id == L
+                         and isinstance(out[j].value, ast.List) and not out[j].value.elts):
+            continue
+        apps = [k for k, b in enumerate(st.body) if isinstance(b, ast.Expr) and isinstance(b.value, ast.Call) and isinstance(b.value.func, ast.Attribute)
+                and b.value.func.attr == "append" and isinstance(b.value.func.value, ast.Name) and b.value.func.value.id == L and len(b.value.args) == 1
+                and not b.value.keywords and not mentions(b.value.args[0], L)]
+        if len(apps) != 1 or any(mentions(b, L) for k, b in enumerate(st.body) if k != apps[0]):
+            continue
+        if any(isinstance(x, (ast.Break, ast.Continue, ast.Return, ast.FunctionDef, ast.Lambda, InlineJump)) for b in st.body for x in ast.walk(b)):
+            continue
+        new, temps = [], []
+        for k in range(1, K + 1):
+            t = f"{L}__e{k}"
+            temps.append(t)
+            for idx, b in enumerate(copy.deepcopy(st.body)):
+                if idx == apps[0]:
+                    b = ast.copy_location(ast.Assign(targets=[ast.Name(id=t, ctx=ast.Store())], value=b.value.args[0], type_comment=None), b)
+                    ast.fix_missing_locations(b)
+                new.append(b)
+        fin = ast.copy_location(ast.Assign(targets=[ast.Name(id=L, ctx=ast.Store())],
+                                           value=ast.List(elts=[ast.Name(id=t, ctx=ast.Load()) for t in temps], ctx=ast.Load()), type_comment=None), st)
+        ast.fix_missing_locations(fin)
+        new.append(fin)
+        out[at:at + 1] = new
+        i = at + len(new)
+        # a destructuring of the finished list
+        k = i
+        while k < len(out):
+            s2 = out[k]
+            if isinstance(s2, ast.Assign) and len(s2.targets) == 1 and isinstance(s2.targets[0], (ast.Tuple, ast.List)) and isinstance(s2.value, ast.Name) and s2.value.id == L \
+                    and len(s2.targets[0].elts) == K and all(isinstance(e_, ast.Name) for e_ in s2.targets[0].elts) and len({e_.id for e_ in s2.targets[0].elts}) == K:
+                parts = []
+                for e_, t in zip(s2.targets[0].elts, temps):
+                    a_ = ast.copy_location(ast.Assign(targets=[ast.Name(id=e_.id, ctx=ast.Store())], value=ast.Name(id=t, ctx=ast.Load()), type_comment=None), s2)
+                    ast.fix_missing_locations(a_)
+                    parts.append(a_)
+                out[k:k + 1] = parts
+                break
+            if mentions(s2, L) or any(mentions(s2, t) for t in temps) or isinstance(s2, (ast.For, ast.While, ast.If, ast.Try, ast.With, ast.FunctionDef, InlineBlock)):
+                break
+            k += 1
+    return out
+
+
 def _ends_flow(stmts):
     if not stmts:
         return False
@@ -869,6 +993,34 @@ class _CmpCanon(ast.NodeTransformer):
     a comparison with the constant on the left (`0 <= x`) is written with it on the right (`x >= 0`)."""
     _FLIP = {ast.Lt: ast.Gt, ast.LtE: ast.GtE, ast.Gt: ast.Lt, ast.GtE: ast.LtE, ast.Eq: ast.Eq, ast.NotEq: ast.NotEq}
 
+    def __init__(self, hexfuncs=()):
+        self.hexfuncs = set(hexfuncs)     # local names of binascii.hexlify / b2a_hex in this module
+
+    def visit_Call(self, node):
+        # N37: binascii.hexlify(b) is b.hex().encode() (the same ASCII bytes; b is evaluated once either way)
+        self.generic_visit(node)
+        f = node.func
+        if len(node.args) == 1 and not node.keywords and not isinstance(node.args[0], ast.Starred) and (
+                (isinstance(f, ast.Name) and f.id in self.hexfuncs)
+                or (isinstance(f, ast.Attribute) and isinstance(f.value, ast.Name) and f.value.id == "binascii" and f.attr in ("hexlify", "b2a_hex") and "binascii" in self.hexfuncs)):
+            new = ast.Call(func=ast.Attribute(value=ast.Call(func=ast.Attribute(value=node.args[0], attr="hex", ctx=ast.Load()), args=[], keywords=[]),
+                                              attr="encode", ctx=ast.Load()), args=[], keywords=[])
+            ast.copy_location(new, node)
+            ast.fix_missing_locations(new)
+            return new
+        # N38: struct.pack of unsigned bytes only ("B", "BB", "<3B", ...) is bytes([...]) of the same values
+        if isinstance(f, ast.Attribute) and isinstance(f.value, ast.Name) and f.value.id == "struct" and f.attr == "pack" and not node.keywords and len(node.args) >= 2 \
+                and isinstance(node.args[0], ast.Constant) and isinstance(node.args[0].value, str) and not any(isinstance(a, ast.Starred) for a in node.args):
+            m = re.fullmatch(r"[@=<>!]?((?:\d*B)+)", node.args[0].value)
+            if m:
+                n = sum(int(c or 1) for c in re.findall(r"(\d*)B", m.group(1)))
+                if n == len(node.args) - 1:
+                    new = ast.Call(func=ast.Name(id="bytes", ctx=ast.Load()), args=[ast.List(elts=list(node.args[1:]), ctx=ast.Load())], keywords=[])
+                    ast.copy_location(new, node)
+                    ast.fix_missing_locations(new)
+                    return new
+        return node
+
     def _one(self, node):
         l, op, r = node.left, node.ops[0], node.comparators[0]
         if isinstance(l, ast.Constant) and not isinstance(r, ast.Constant) and type(op) in self._FLIP and not isinstance(l.value, (str, bytes)):
@@ -1092,6 +1244,22 @@ def _eliminate_aliases(fdef, log=None):
                     note(st, idx)
         go(fdef.body)
         for idx, st in enumerate(stmts_order):
+            if isinstance(st, ast.Assign) and len(st.targets) == 1 and isinstance(st.targets[0], ast.Name) and _stable_path(st.value) \
+                    and any(st is s_ for s_ in fdef.body):
+                # N36: `x = self.CMD.UI_ATT` at the top level of the function, the only binding of x, x not read before it: x is a short name for
+                # the class-level constant (constant paths are what N2 already substitutes for loop variables); the path takes its place
+                x = st.targets[0].id
+                root = st.value
+                while isinstance(root, ast.Attribute):
+                    root = root.value
+                if x not in params and x not in banned and stores.get(x) == [idx] and not any(i <= idx for i in loads.get(x, [])) \
+                        and root.id != x and (root.id in params or root.id not in stores):
+                    fdef.body[:] = [s_ for s_ in fdef.body if s_ is not st] or [ast.copy_location(ast.Pass(), st)]
+                    _ConstSub({x: st.value}).visit(fdef)
+                    if log is not None:
+                        log.append((ast.unparse(st.value), x, getattr(st, "lineno", 0)))
+                    changed = True
+                    break
             if not (isinstance(st, ast.Assign) and len(st.targets) == 1 and isinstance(st.targets[0], ast.Name) and isinstance(st.value, ast.Name)):
                 continue
             x, y = st.targets[0].id, st.value.id
@@ -1388,7 +1556,7 @@ class Normalizer:
             cdef = self.classes.get((modname, cname))
             if cdef is None:
                 return None
-            if recv == "self" or recv == cname:
+            if recv == "self" or recv == cname or recv == "cls":
                 fd = self._methods(cdef).get(f.attr)
                 if fd is None:
                     return None
@@ -1401,7 +1569,9 @@ class Normalizer:
                 clsm = any((isinstance(d, ast.Name) and d.id == "classmethod") for d in fd.decorator_list)
                 if recv == cname and not static:
                     return None
-                if clsm and recv != "self":
+                if clsm and recv not in ("self", "cls"):
+                    return None
+                if recv == "cls" and not (clsm or static):
                     return None
                 return q, fd, (not static)
         return None
@@ -1480,11 +1650,25 @@ class Normalizer:
             if nm not in used:
                 self.dead |= {q for q in qs if q in inlined}
 
+    def _hexfuncs(self, modname):
+        """module-level names standing for binascii.hexlify / b2a_hex (and `binascii` itself when the module is imported)"""
+        cache = self.__dict__.setdefault("_hexcache", {})
+        if modname not in cache:
+            out = set()
+            mod = self.modules.get(modname)
+            for st in (getattr(mod, "body", None) or getattr(getattr(mod, "tree", None), "body", None) or []):
+                if isinstance(st, ast.ImportFrom) and st.module == "binascii":
+                    out |= {a.asname or a.name for a in st.names if a.name in ("hexlify", "b2a_hex")}
+                if isinstance(st, ast.Import):
+                    out |= {"binascii" for a in st.names if a.name == "binascii" and a.asname is None}
+            cache[modname] = out
+        return cache[modname]
+
     def _function(self, fdef, modname, cname, stack):
         if getattr(fdef, "_normalised", False):
             return
         fdef._normalised = True
-        _CmpCanon().visit(fdef)
+        _CmpCanon(self._hexfuncs(modname)).visit(fdef)
         _propagate_bools(fdef)
         fdef.body = _sink_returns(fdef.body)
         state = {"locals": _local_names(fdef), "caller": stack[0], "displays": _single_displays(fdef), "module": modname, "root": fdef}
@@ -1517,7 +1701,7 @@ class Normalizer:
                            or (isinstance(n, ast.Name) and n.id == nm and isinstance(n.ctx, (ast.Store, ast.Del))) for n in ast.walk(st)):
                         del self._closures[nm]
         self._closures = saved
-        return _quantifier_loops(out)
+        return _unpack_fields(_counted_list_loops(_quantifier_loops(out)))
 
     def _closure_only_called(self, fd, state):
         root = state.get("root")
@@ -1648,8 +1832,12 @@ class Normalizer:
         if isinstance(st, (ast.For, ast.AsyncFor)):
             st.body = rec(st.body)
             st.orelse = rec(st.orelse)
+            self._renorm = False
             un = self._unroll(st, modname, cname, state)
             if un is not None:
+                if self._renorm:
+                    self._renorm = False
+                    return rec(un)
                 return un
             return self._hoist(st, "iter", modname, cname, stack, state)
         if isinstance(st, ast.With) and len(st.items) == 1 and st.items[0].optional_vars is None and self._is_suppress(st.items[0].context_expr, modname):
@@ -1772,7 +1960,7 @@ class Normalizer:
         # the helper's own helpers first (with the extended stack)
         hname = fdef.name.strip("_")
         hcls = qual.split(":")[1].split(".")[0] if "." in qual.split(":")[1] else None
-        _CmpCanon().visit(helper)
+        _CmpCanon(self._hexfuncs(modname)).visit(helper)
         _propagate_bools(helper)
         helper.body = _sink_returns(helper.body)
         sub_state = {"locals": _local_names(helper), "caller": qual, "module": modname, "root": helper}
@@ -1790,7 +1978,8 @@ class Normalizer:
             if selfname == "cls" and any(isinstance(d, ast.Name) and d.id == "classmethod" for d in fdef.decorator_list):
                 # a class method called on the instance: what it reads through `cls` (class constants, other class / static methods) the instance
                 # reaches through `self` as well
-                helper = _Rename({"cls": "self"}).visit(helper)
+                if not (isinstance(call.func, ast.Attribute) and isinstance(call.func.value, ast.Name) and call.func.value.id == "cls"):
+                    helper = _Rename({"cls": "self"}).visit(helper)
             elif selfname != "self":
                 return None
         # argument binding
@@ -1818,7 +2007,7 @@ class Normalizer:
         nonlocals = {nm_ for n_ in ast.walk(helper) if isinstance(n_, ast.Nonlocal) for nm_ in n_.names}
         if nonlocals:
             helper.body = [s_ for s_ in helper.body if not isinstance(s_, ast.Nonlocal)] or [ast.copy_location(ast.Pass(), helper)]
-        hl = _local_names(helper) - ({"self"} if bound else set()) - nonlocals
+        hl = _local_names(helper) - ({"self", selfname} if bound else set()) - nonlocals
         assigned = set()
         for n in ast.walk(ast.Module(body=helper.body, type_ignores=[])):
             if isinstance(n, ast.Name) and isinstance(n.ctx, (ast.Store, ast.Del)):
@@ -2372,9 +2561,33 @@ class Normalizer:
         disp = self._const_display(st.iter, modname, cname, state.get("displays"))
         if disp is None or len(disp.elts) > MAX_UNROLL or any(isinstance(e, ast.Starred) for e in disp.elts):
             return None
-        for n in ast.walk(ast.Module(body=st.body, type_ignores=[])):
-            if isinstance(n, (ast.Break, ast.Continue)):
-                return None
+        # `break` of this loop (not of a loop nested in it): the unrolled copies become a block whose breaks jump to its end; `continue` is not handled
+        breaks = []
+
+        def scan(ss, own=True):
+            for s_ in ss:
+                if isinstance(s_, ast.Continue) and own:
+                    return False
+                if isinstance(s_, ast.Break) and own:
+                    breaks.append(s_)
+                if isinstance(s_, (ast.FunctionDef, ast.AsyncFunctionDef, ast.ClassDef)):
+                    continue
+                inner = isinstance(s_, (ast.For, ast.While, ast.AsyncFor))
+                if inner and any(isinstance(x, ast.Continue) for x in ast.walk(s_)) and not own:
+                    pass
+                subs = [(s_, "prologue"), (s_, "body"), (s_, "epilogue")] if isinstance(s_, InlineBlock) else _child_lists(s_)
+                for owner, f in subs:
+                    if not scan(getattr(owner, f), own and not (inner and f == "body")):
+                        return False
+                for h in getattr(s_, "handlers", []) or []:
+                    if not scan(h.body, own):
+                        return False
+            return True
+        if not scan(st.body):
+            return None
+        if breaks and any(isinstance(x, (InlineJump, ast.For, ast.While, ast.AsyncFor)) for s_ in st.body for x in ast.walk(s_)):
+            # (bound: a body with loops of its own is left as a loop - its copies would each need their own loop summary)
+            return None
         out = []
         stored = {n.id for n in ast.walk(ast.Module(body=st.body, type_ignores=[]))
                   if isinstance(n, ast.Name) and isinstance(n.ctx, (ast.Store, ast.Del))}
@@ -2387,12 +2600,23 @@ class Normalizer:
                 continue
             pairs = _flat_pairs(st.target, e)
             tnames = {t for t, _ in pairs} if pairs else set()
+            def method_ref(v):
+                # self.<method of this class, never re-bound as an instance attribute>: the bound method itself
+                if not (isinstance(v, ast.Attribute) and isinstance(v.value, ast.Name) and v.value.id == "self" and cname is not None):
+                    return False
+                cdef = self.classes.get((modname, cname))
+                if cdef is None or v.attr not in self._methods(cdef):
+                    return False
+                if any(isinstance(x, ast.Attribute) and x.attr == v.attr and isinstance(x.ctx, (ast.Store, ast.Del)) for x in ast.walk(cdef)):
+                    return False
+                self._renorm = True     # the calls through the loop variable are calls of known methods now: normalise the copies again
+                return True
             if pairs and len(tnames) == len(pairs) and all(_side_effect_free(v) or _is_const(v) for _, v in pairs) \
                     and not any(isinstance(n, ast.Name) and n.id in tnames for _, v in pairs for n in ast.walk(v)):
                 # element-wise: constants and constant paths (self.UPPER.CASE chains) take the place of the loop variable, the rest is assigned
                 m, pre = {}, []
                 for t, v in pairs:
-                    if (_is_const(v) or _stable_path(v) or (isinstance(v, ast.Name) and v.id not in stored)) and t not in stored:
+                    if (_is_const(v) or _stable_path(v) or (isinstance(v, ast.Name) and v.id not in stored) or method_ref(v)) and t not in stored:
                         m[t] = v
                     else:
                         a = ast.Assign(targets=[ast.Name(id=t, ctx=ast.Store())], value=copy.deepcopy(v), type_comment=None)
@@ -2411,4 +2635,63 @@ class Normalizer:
         self.unrolled.append((state["caller"], getattr(st, "lineno", 0), len(disp.elts)))
         # setattr / getattr whose name became a constant by the substitution are attribute stores / loads now (N3)
         out = [_AttrCalls().visit(s_) for s_ in out]
+        if breaks:
+            self.counter += 1
+            ret = f"_brk{self.counter}"
+
+            class _Brk(ast.NodeTransformer):
+                def __init__(s_):
+                    s_.depth = 0
+
+                def visit_FunctionDef(s_, node):
+                    return node
+                visit_AsyncFunctionDef = visit_Lambda = visit_ClassDef = visit_FunctionDef
+
+                def _loop(s_, node):
+                    s_.depth += 1
+                    node.body = [y for x in node.body for y in (lambda r: r if isinstance(r, list) else [r])(s_.visit(x))]
+                    s_.depth -= 1
+                    node.orelse = [y for x in node.orelse for y in (lambda r: r if isinstance(r, list) else [r])(s_.visit(x))]
+                    return node
+                visit_For = visit_While = visit_AsyncFor = _loop
+
+                def visit_Break(s_, node):
+                    if s_.depth:
+                        return node
+                    j = ast.copy_location(InlineJump(), node)
+                    j.ret = ret
+                    return j
+            tr = _Brk()
+            body = []
+            for s_ in out:
+                r = tr.visit(s_)
+                body += r if isinstance(r, list) else [r]
+            body = _truncate_dead(_prune_const_ifs(body))
+
+            def fold(ss):
+                """`if C: <jump>` followed by REST (and the block's end) is `if not C: REST`"""
+                ss = list(ss)
+                if ss and isinstance(ss[-1], InlineJump):
+                    ss = ss[:-1]
+                for i_, s_ in enumerate(ss):
+                    if isinstance(s_, ast.If) and not s_.orelse and len(s_.body) == 1 and isinstance(s_.body[0], InlineJump):
+                        rest = fold(ss[i_ + 1:])
+                        if rest is None:
+                            return None
+                        neg = _negate(s_.test)
+                        if neg is None:
+                            neg = ast.copy_location(ast.UnaryOp(op=ast.Not(), operand=s_.test), s_.test)
+                        new_if = ast.copy_location(ast.If(test=neg, body=rest or [ast.copy_location(ast.Pass(), s_)], orelse=[]), s_)
+                        ast.fix_missing_locations(new_if)
+                        return ss[:i_] + [new_if]
+                    if any(isinstance(x, InlineJump) for x in ast.walk(s_)):
+                        return None
+                return ss
+            flat = fold(body)
+            if flat is not None:
+                return flat
+            blk = InlineBlock(prologue=[], body=body, epilogue=[])
+            ast.copy_location(blk, st)
+            blk.helper, blk.ret, blk.call = "<loop>", ret, None
+            return _flatten_blocks([blk])
         return out
